@@ -245,11 +245,23 @@ fn rule_line(r: &mut Rng) -> String {
         6 => format!("||{}{}^", r.pick(&["www.", "www.", "WWW.", "Www.", "www.www.", "www.WWW."]), r.pick(gen::HOSTS)),
         7 => format!("||{}/{}|", r.pick(gen::HOSTS), r.pick(gen::VOCAB)),
         8 => format!("@@||{}^{}", r.pick(gen::HOSTS), r.pick(gen::VOCAB)),
-        9 => format!("/{}\\/[a-z]+{}/", r.pick(gen::VOCAB), r.pick(&["", "\\d", "\\:", ".*"])),
+        9 => {
+            // full-regex rule; the literal part in lower, upper or mixed case (the URL is matched
+            // lower-cased unless $match-case, so the body has to be folded as well)
+            let w = r.pick(gen::VOCAB);
+            let w = match r.below(3) { 0 => w.to_string(), 1 => w.to_uppercase(), _ => { let mut c = w.chars(); c.next().map(|f| f.to_uppercase().collect::<String>() + c.as_str()).unwrap_or_default() } };
+            format!("/{}\\/[a-z]+{}/", w, r.pick(&["", "\\d", "\\:", ".*"]))
+        }
         _ => body(r),
     }
 }
 fn url_line(r: &mut Rng, rule: &str) -> String {
+    if rule.len() > 2 && rule.starts_with('/') && rule.ends_with('/') && r.chance(2, 3) {
+        // a URL for the /word\/[a-z]+.../ rules: the word in some case, letters, then a digit or ':'
+        let w = rule[1..].split('\\').next().unwrap_or("x");
+        let w = if r.chance(1, 2) { w.to_string() } else if r.chance(1, 2) { w.to_uppercase() } else { w.to_lowercase() };
+        return format!("https://{}/{}/{}{}", r.pick(gen::HOSTS), w, r.pick(&["abc", "x", "Ab"]), r.pick(&["", "7", ":", "/z"]));
+    }
     match r.below(7) {
         0 | 1 => gen::url_for(r, rule),
         2 => gen::url(r).replace("ws://", "http://").replace("wss://", "https://"),
